@@ -24,7 +24,10 @@ def run(ctx):
     if not quick:
         scs += [s for s in fr.enumerate_scenarios(3, flagsets=wr[:2]) if len(s["kinds"]) == 3]
     dry = [s for s in fr.enumerate_scenarios(2, faults=["none", "read", "fsize"]) if s["flags"]["diff"] or s["flags"]["print"]]
-    scs = pick(ctx, scs, 900 if quick else 12000) + pick(ctx, dry, 150 if quick else 2000)
+    # (patches that cannot be loaded are few and end the run at once: a fixed share of them is always replayed)
+    bad = [s for s in scs if s["fault"]["p"] == "badpatch"] + [s for s in fr.enumerate_scenarios(1, faults=["badpatch"]) if s["flags"]["diff"] or s["flags"]["print"]]
+    scs = [s for s in scs if s["fault"]["p"] != "badpatch"]
+    scs = pick(ctx, scs, 860 if quick else 12000) + pick(ctx, bad, 40 if quick else 400) + pick(ctx, dry, 150 if quick else 2000)
     real = [fr.realise(ctx, s, "c16-%d" % i, ctx.rng) for i, s in enumerate(scs)]
     recs = fr.run_cli(ctx, real, "c16")
     results = fr.validate(ctx, "c16", recs, ref)
